@@ -2564,13 +2564,16 @@ class Group(System):
             initialized, the driver for this model must be supplied in order to properly
             initialize the approximations.
         """
+        save_tot_jac = self._tot_jac
         if driver is not None and self.pathname == '' and self._owns_approx_jac:
             self._tot_jac = _TotalJacInfo(driver._problem(), None, None, 'flat_dict', approx=True)
 
         try:
             super().run_linearize(sub_do_ln=sub_do_ln)
         finally:
-            self._tot_jac = None
+            # A nested call (e.g. the sparsity runs of a dynamic coloring during compute_totals)
+            # must not discard the total jacobian of the enclosing computation.
+            self._tot_jac = save_tot_jac
 
     def _apply_nonlinear(self):
         """
